@@ -34,10 +34,21 @@ VERIFICATION_FAILURE_MARKERS = (
 
 
 def sh(cmd, cwd=None, env=None, timeout=None):
+    """run a command in its own process group; on timeout the whole group is killed"""
+    import signal
     t0 = time.time()
-    p = subprocess.run(cmd, cwd=cwd, env=env or ENV, stdout=subprocess.PIPE, stderr=subprocess.PIPE,
-                       timeout=timeout, text=True)
-    return p.returncode, p.stdout, p.stderr, time.time() - t0
+    p = subprocess.Popen(cmd, cwd=cwd, env=env or ENV, stdout=subprocess.PIPE, stderr=subprocess.PIPE, text=True,
+                         start_new_session=True)
+    try:
+        out, err = p.communicate(timeout=timeout)
+    except subprocess.TimeoutExpired:
+        try:
+            os.killpg(p.pid, signal.SIGKILL)
+        except ProcessLookupError:
+            pass
+        out, err = p.communicate()
+        return 124, out, err + '\nTIMEOUT after %ss' % timeout, time.time() - t0
+    return p.returncode, out, err, time.time() - t0
 
 
 # ------------------------------------------------------------------------------------------ dump
@@ -76,9 +87,14 @@ def build_dumps(decls: List[Decl], tag: str, features=()) -> DumpResult:
     os.makedirs(os.path.join(crate, 'src'), exist_ok=True)
     feats = sorted(set(features) | ({'new_unchecked'} if any(d.new_unchecked for d in decls) else set()))
     with open(os.path.join(crate, 'Cargo.toml'), 'w') as f:
+        deps = ''
+        if 'serde' in feats:
+            deps += 'serde = { version = "1", default-features = false, features = ["std"] }\n'
+        if 'arbitrary' in feats:
+            deps += 'arbitrary = "1"\n'
         f.write('[package]\nname = "nutype_verif_cat_%s"\nversion = "0.0.0"\nedition = "2021"\n\n[workspace]\n\n'
-                '[dependencies]\nnutype = { path = "%s/nutype", features = %s }\n'
-                % (tag.lower(), REPO, json.dumps(feats)))
+                '[dependencies]\nnutype = { path = "%s/nutype", features = %s }\n%s'
+                % (tag.lower(), REPO, json.dumps(feats), deps))
     shutil.copy(os.path.join(REPO, 'Cargo.lock'), os.path.join(crate, 'Cargo.lock'))
     active = list(decls)
     env = dict(ENV)
